@@ -1222,7 +1222,7 @@ def parts(tier):
             "histories",
             run,
             strategy=histories(40 if tier == "quick" else 60),
-            n={"quick": 1600, "thorough": 16000},
+            n={"quick": 1600, "thorough": 48000},
             require={"quick": _require(), "thorough": {k: 5 * v for k, v in _require().items()}},
             shards={"quick": 16, "thorough": 16},
             case_timeout_s=60.0,
